@@ -18,7 +18,7 @@ try:
         if a.returncode != 0:
             print("%-40s PATCH DOES NOT APPLY: %s" % (p.name, a.stderr.strip()[:200]))
             continue
-        env = dict(os.environ, VERIF_REPO=str(scratch))
+        env = dict(os.environ, VERIF_REPO=str(scratch), VERIF_EVIDENCE_DIR=str(VERIF / ".build" / "selftest_evidence"))
         r = subprocess.run([sys.executable, str(VERIF / "tools/check.py"), pid, "--tier", "quick"], cwd=VERIF, env=env,
                            capture_output=True, text=True)
         lines = [l for l in r.stdout.splitlines() if l.startswith(("VIOLATION", "KNOWN-FINDING"))]
